@@ -156,6 +156,7 @@ def main():
             tech, note = tech + '; ' + EXTRA[pid][0], note + ' ' + EXTRA[pid][1]
         if pid in EXTRA2:
             note = note + ' ' + EXTRA2[pid]
+        note = note + ' Generic baseline-relative rules over the anchored files (pncstatic/generic.py): unused parameters, read mutable defaults, collapsed element-wise choices, uncalled methods, one-shot iterators, module state, un-adapted sibling statements.'
         mod = importlib.import_module('pncstatic.rules.%s' % pid.lower())
         checks.append(dict(
             property_id=pid,
